@@ -4,6 +4,14 @@ import json, os
 V = os.path.dirname(os.path.dirname(os.path.abspath(__file__)))
 ALL = ["C%02d" % i for i in range(1, 18)]
 CLAIMED = {
+ "C01": dict(
+   text="TLC checks on all 7,462 classes that the closed-form class number equals the position in the order defined by the rules of poker, evaluates the best class of every one of the 49,205 rank keys and 4,719 flush keys, checks the flush scan for all 4^7 suit orders and the key abstraction on every 7-subset of reduced decks. Binding: concrete hands for every key plus random hands and comparison pairs are evaluated by the real code and validated by TLC from raw card ids (best of 21 subsets); the real evaluator is run on all 133,784,560 sets in sampled presentation orders against the table TLC exported. Exhaustive over sets and keys, sampled over the 7! orders per set.",
+   note="Trusted: Poker.tla's reading of the rules (anchored by closed form = order-based definition and by the published 7-card category frequencies, both re-checked), the harness projection, TLC. Orders per set are sampled (16 quick / 128 thorough of 5040).",
+   technique="TLA+ rules-of-poker spec model-checked with TLC; trace validation per abstract key; exhaustive sweep against the TLC-exported table", ref="DESIGN.md 5/C01"),
+ "C07": dict(
+   text="Category boundaries of the class numbering are derived from the rules by TLC (MCPoker); hand_type() of concrete hands for every key - hence every one of the 4,824 reachable classes including the first and last of each category - is validated by TLC against the category of Eval7(cards), and hand_type() is compared on all 133,784,560 sets with the TLC-exported categories. Exhaustive.",
+   note="Trusted: Poker.tla, harness projection (category compared through its Debug name), TLC.",
+   technique="TLA+ rules-of-poker spec; TLC trace validation over all keys; exhaustive sweep", ref="DESIGN.md 5/C07"),
  "C13": dict(
    text="Exhaustive: the quantifier of this property is finite (52 cards, 13 ranks, 4 suits, 16,513 short ASCII strings, all ordered pairs, all ranges) and every element is recorded from the real library and validated by TLC against the tables of Cards.tla in the quick tier.",
    note="Trusted: the harness projection (card id = position in a table built from enum variants), TLC, the JSON reader of the CommunityModules. Reversed range endpoints are read as outside the statement.",
